@@ -657,6 +657,352 @@ theorem rosLoop_outOfFuel (fuel : Nat) (r : RState α) (hr : r.status ≠ .outOf
 
 end Step
 
+/-! ### C05: the stage equations of `stagesGo` -/
+
+section Stages
+variable {α : Type} [OfNat α 0] [OfNat α 1] [Add α] [Sub α] [Mul α] [Div α]
+variable (s : SolverCfg α) (p : RosParams α) (kc : Mat α)
+
+theorem getD_set_ne {β : Type} (a : Array β) (i j : Nat) (v d : β) (h : i ≠ j) :
+    (a.setIfInBounds i v).getD j d = a.getD j d := by
+  simp [Array.getD_eq_getD_getElem?, Array.getElem?_setIfInBounds_ne h]
+
+theorem getD_set_eq {β : Type} (a : Array β) (i : Nat) (v d : β) (h : i < a.size) :
+    (a.setIfInBounds i v).getD i d = v := by
+  simp [Array.getD_eq_getD_getElem?, h]
+
+theorem foldl_congr_mem {β γ : Type} {l : List β} {f g : γ → β → γ}
+    (h : ∀ x, ∀ b ∈ l, f x b = g x b) (init : γ) : l.foldl f init = l.foldl g init := by
+  induction l generalizing init with
+  | nil => rfl
+  | cons a l ih =>
+    simp only [List.foldl_cons]
+    rw [h init a List.mem_cons_self]
+    exact ih (fun x b hb => h x b (List.mem_cons_of_mem _ hb)) _
+
+/-- `Y + Σ_{j<i} a_{ij} K_j` with the packed index `i(i−1)/2 + j` -/
+def stageY (Y : Mat α) (K : Array (Mat α)) (i : Nat) : Mat α :=
+  (List.range i).foldl (fun yn j => axpyM (rd p.a (i * (i - 1) / 2 + j)) (K.getD j #[]) yn) Y
+
+/-- the function value used by stage `i`: the initial forcing for stage 0; for `i > 0` a fresh
+    evaluation at `stageY i` when `new_function_evaluation[i]`, else the value of stage `i − 1`.
+    (`K0` is the array at entry: `K0[0]` holds the initial forcing, `K0[i]` only gives the shape of
+    the zeroed buffer.) -/
+def stageForcing (Y : Mat α) (K0 K : Array (Mat α)) : Nat → Mat α
+  | 0 => K0.getD 0 #[]
+  | i + 1 =>
+    if p.newF.getD (i + 1) false
+    then s.forcing kc (stageY p Y K (i + 1)) (fillM (K0.getD (i + 1) #[]) 0)
+    else stageForcing Y K0 K i
+
+/-- `F + Σ_{j<i} (c_{ij}/h) K_j` with the packed index `i(i−1)/2 + j` -/
+def stageRhsOf (h : α) (K : Array (Mat α)) (F : Mat α) (i : Nat) : Mat α :=
+  (List.range i).foldl (fun ks j => axpyM (rd p.c (i * (i - 1) / 2 + j) / h) (K.getD j #[]) ks) F
+
+theorem stageRhs_eq (h : α) (stage : Nat) (K : Array (Mat α)) :
+    stageRhs p h stage K = stageRhsOf p h K (K.getD stage #[]) stage := rfl
+
+theorem stageY_congr (Y : Mat α) (K K' : Array (Mat α)) (i : Nat)
+    (h : ∀ j, j < i → K.getD j #[] = K'.getD j #[]) : stageY p Y K i = stageY p Y K' i := by
+  unfold stageY
+  apply foldl_congr_mem
+  intro x j hj
+  rw [h j (List.mem_range.mp hj)]
+
+theorem stageRhsOf_congr (hh : α) (K K' : Array (Mat α)) (F : Mat α) (i : Nat)
+    (h : ∀ j, j < i → K.getD j #[] = K'.getD j #[]) : stageRhsOf p hh K F i = stageRhsOf p hh K' F i := by
+  unfold stageRhsOf
+  apply foldl_congr_mem
+  intro x j hj
+  rw [h j (List.mem_range.mp hj)]
+
+theorem stageForcing_congr (Y : Mat α) (K0 K K' : Array (Mat α)) (i : Nat)
+    (h : ∀ j, j < i → K.getD j #[] = K'.getD j #[]) :
+    stageForcing s p kc Y K0 K i = stageForcing s p kc Y K0 K' i := by
+  induction i with
+  | zero => rfl
+  | succ i ih =>
+    unfold stageForcing
+    rw [stageY_congr p Y K K' (i + 1) (fun j hj => h j (by omega)), ih (fun j hj => h j (by omega))]
+
+/-! facts about the pieces of one stage -/
+
+theorem stagePre_size (Y : Mat α) (stage : Nat) (K : Array (Mat α)) (ynew : Mat α) (st : Stats) :
+    (stagePre s p kc Y stage K ynew st).1.size = K.size := by
+  unfold stagePre; split
+  · rfl
+  · split <;> simp
+
+theorem stagePre_getD_ne (Y : Mat α) (stage : Nat) (K : Array (Mat α)) (ynew : Mat α) (st : Stats)
+    (j : Nat) (h : stage ≠ j) : (stagePre s p kc Y stage K ynew st).1.getD j #[] = K.getD j #[] := by
+  unfold stagePre; split
+  · rfl
+  · split
+    · exact getD_set_ne _ _ _ _ _ h
+    · rfl
+
+theorem stagePre_getD_stage (Y : Mat α) (stage : Nat) (K : Array (Mat α)) (ynew : Mat α) (st : Stats)
+    (hs : stage < K.size) :
+    (stagePre s p kc Y stage K ynew st).1.getD stage #[] =
+      if stage = 0 then K.getD stage #[]
+      else if p.newF.getD stage false then s.forcing kc (stageY p Y K stage) (fillM (K.getD stage #[]) 0)
+      else K.getD stage #[] := by
+  unfold stagePre; split
+  · rfl
+  · split
+    · exact getD_set_eq _ _ _ _ hs
+    · rfl
+
+theorem stageCopy_size (stage : Nat) (K : Array (Mat α)) : (stageCopy p stage K).size = K.size := by
+  unfold stageCopy; split <;> simp
+
+theorem stageCopy_getD_ne (stage : Nat) (K : Array (Mat α)) (j : Nat) (h : stage + 1 ≠ j) :
+    (stageCopy p stage K).getD j #[] = K.getD j #[] := by
+  unfold stageCopy; split
+  · exact getD_set_ne _ _ _ _ _ h
+  · rfl
+
+theorem stageCopy_getD_succ (stage : Nat) (K : Array (Mat α)) (hs : stage + 1 < p.stages)
+    (hk : stage + 1 < K.size) :
+    (stageCopy p stage K).getD (stage + 1) #[] =
+      if p.newF.getD (stage + 1) false then K.getD (stage + 1) #[] else K.getD stage #[] := by
+  unfold stageCopy
+  cases hn : p.newF.getD (stage + 1) false
+  · simp only [hs, decide_true, Bool.not_false, Bool.and_self, if_true, Bool.false_eq_true, if_false]
+    exact getD_set_eq _ _ _ _ hk
+  · simp
+
+/-- entries below the current stage are never modified again -/
+theorem stagesGo_K_lt (Y J Lo Up : Mat α) (h : α) (n stage : Nat) (K : Array (Mat α)) (ynew : Mat α)
+    (st : Stats) (j : Nat) (hj : j < stage) :
+    (stagesGo s p kc Y J Lo Up h n stage K ynew st).1.getD j #[] = K.getD j #[] := by
+  induction n generalizing stage K ynew st with
+  | zero => rfl
+  | succ n ih =>
+    rw [stagesGo_succ, ih _ _ _ _ (by omega), getD_set_ne _ _ _ _ _ (by omega),
+      stageCopy_getD_ne _ _ _ _ (by omega), stagePre_getD_ne _ _ _ _ _ _ _ _ _ (by omega)]
+
+theorem stagesGo_K_size (Y J Lo Up : Mat α) (h : α) (n stage : Nat) (K : Array (Mat α)) (ynew : Mat α)
+    (st : Stats) : (stagesGo s p kc Y J Lo Up h n stage K ynew st).1.size = K.size := by
+  induction n generalizing stage K ynew st with
+  | zero => rfl
+  | succ n ih => rw [stagesGo_succ, ih, Array.size_setIfInBounds, stageCopy_size, stagePre_size]
+
+/-- entry condition of stage `stage`: what `K[stage]` holds -/
+def StageEntry (Y : Mat α) (K0 K : Array (Mat α)) (stage : Nat) : Prop :=
+  K.getD stage #[] =
+    if stage = 0 ∨ p.newF.getD stage false = true then K0.getD stage #[]
+    else stageForcing s p kc Y K0 K (stage - 1)
+
+theorem stagePre_is_forcing (Y : Mat α) (K0 K : Array (Mat α)) (stage : Nat) (ynew : Mat α) (st : Stats)
+    (hs : stage < K.size) (he : StageEntry s p kc Y K0 K stage) :
+    (stagePre s p kc Y stage K ynew st).1.getD stage #[] = stageForcing s p kc Y K0 K stage := by
+  rw [stagePre_getD_stage s p kc Y stage K ynew st hs]
+  unfold StageEntry at he
+  cases stage with
+  | zero => simpa [stageForcing] using he
+  | succ m =>
+    simp only [Nat.add_eq_zero_iff, one_ne_zero, and_false, false_or, if_false] at he ⊢
+    unfold stageForcing
+    cases hn : p.newF.getD (m + 1) false
+    · simpa [hn] using he
+    · simp only [hn, if_true] at he ⊢
+      rw [he]
+
+/-- **stage equations**, generalized over the starting stage -/
+theorem stagesGo_spec (Y J Lo Up : Mat α) (h : α) (K0 : Array (Mat α)) (hK0 : p.stages ≤ K0.size)
+    (n stage : Nat) (K : Array (Mat α)) (ynew : Mat α) (st : Stats)
+    (hsum : stage + n = p.stages) (hsz : K.size = K0.size)
+    (hgt : ∀ j, stage < j → K.getD j #[] = K0.getD j #[])
+    (hent : 0 < n → StageEntry s p kc Y K0 K stage)
+    (i : Nat) (h1 : stage ≤ i) (h2 : i < p.stages) :
+    (stagesGo s p kc Y J Lo Up h n stage K ynew st).1.getD i #[] =
+      s.linSolve J Lo Up
+        (stageRhsOf p h (stagesGo s p kc Y J Lo Up h n stage K ynew st).1
+          (stageForcing s p kc Y K0 (stagesGo s p kc Y J Lo Up h n stage K ynew st).1 i) i) := by
+  induction n generalizing stage K ynew st with
+  | zero => omega
+  | succ n ih =>
+    have hent := hent (by omega)
+    have hs : stage < K.size := by omega
+    -- names for the pieces
+    generalize hpre : stagePre s p kc Y stage K ynew st = pre at *
+    have hpre_ne : ∀ j, stage ≠ j → pre.1.getD j #[] = K.getD j #[] := fun j hj => by
+      rw [← hpre]; exact stagePre_getD_ne s p kc Y stage K ynew st j hj
+    have hpre_st : pre.1.getD stage #[] = stageForcing s p kc Y K0 K stage := by
+      rw [← hpre]; exact stagePre_is_forcing s p kc Y K0 K stage ynew st hs hent
+    have hpre_sz : pre.1.size = K.size := by rw [← hpre]; exact stagePre_size s p kc Y stage K ynew st
+    rw [stagesGo_succ, hpre]
+    generalize hK1 : (stageCopy p stage pre.1).setIfInBounds stage
+      (s.linSolve J Lo Up (stageRhs p h stage (stageCopy p stage pre.1))) = K1
+    have hK1_lt : ∀ j, j < stage → K1.getD j #[] = K.getD j #[] := fun j hj => by
+      rw [← hK1, getD_set_ne _ _ _ _ _ (by omega), stageCopy_getD_ne _ _ _ _ (by omega), hpre_ne j (by omega)]
+    have hK1_sz : K1.size = K0.size := by
+      rw [← hK1, Array.size_setIfInBounds, stageCopy_size, hpre_sz, hsz]
+    rcases Nat.eq_or_lt_of_le h1 with h1 | h1
+    · -- i = stage
+      subst h1
+      have hf_lt : ∀ j, j < stage →
+          (stagesGo s p kc Y J Lo Up h n (stage + 1) K1 pre.2.1
+            { pre.2.2 with solves := pre.2.2.solves + 1 }).1.getD j #[] = K.getD j #[] := fun j hj => by
+        rw [stagesGo_K_lt _ _ _ _ _ _ _ _ _ _ _ _ _ j (by omega), hK1_lt j hj]
+      have hf_st : (stagesGo s p kc Y J Lo Up h n (stage + 1) K1 pre.2.1
+            { pre.2.2 with solves := pre.2.2.solves + 1 }).1.getD stage #[] = K1.getD stage #[] :=
+        stagesGo_K_lt _ _ _ _ _ _ _ _ _ _ _ _ _ stage (by omega)
+      generalize (stagesGo s p kc Y J Lo Up h n (stage + 1) K1 pre.2.1
+            { pre.2.2 with solves := pre.2.2.solves + 1 }).1 = Kf at hf_lt hf_st ⊢
+      have e1 : K1.getD stage #[] =
+          s.linSolve J Lo Up (stageRhs p h stage (stageCopy p stage pre.1)) := by
+        rw [← hK1]; exact getD_set_eq _ _ _ _ (by rw [stageCopy_size, hpre_sz]; exact hs)
+      have e2 : stageRhs p h stage (stageCopy p stage pre.1) =
+          stageRhsOf p h Kf (stageForcing s p kc Y K0 Kf stage) stage := by
+        rw [stageRhs_eq, stageCopy_getD_ne _ _ _ _ (by omega), hpre_st,
+          stageForcing_congr s p kc Y K0 Kf K stage hf_lt]
+        apply stageRhsOf_congr
+        intro j hj
+        rw [hf_lt j hj, stageCopy_getD_ne _ _ _ _ (by omega), hpre_ne j (by omega)]
+      rw [hf_st, e1, e2]
+    · -- i > stage : induction hypothesis
+      apply ih (stage + 1) K1 pre.2.1 _ (by omega) hK1_sz
+      · intro j hj
+        rw [← hK1, getD_set_ne _ _ _ _ _ (by omega), stageCopy_getD_ne _ _ _ _ (by omega),
+          hpre_ne j (by omega), hgt j (by omega)]
+      · intro hn
+        unfold StageEntry
+        simp only [Nat.add_eq_zero_iff, one_ne_zero, and_false, false_or, Nat.add_sub_cancel]
+        rw [← hK1, getD_set_ne _ _ _ _ _ (by omega),
+          stageCopy_getD_succ p stage pre.1 (by omega) (by omega), hK1]
+        cases hnf : p.newF.getD (stage + 1) false
+        · simp only [Bool.false_eq_true, if_false]
+          rw [hpre_st]
+          exact stageForcing_congr s p kc Y K0 K K1 stage (fun j hj => (hK1_lt j hj).symm)
+        · simp only [if_true]
+          rw [hpre_ne _ (by omega), hgt _ (by omega)]
+      · omega
+
+/-- **stage equations** of one attempt: with `Kf` the final stage vectors, for every stage `i`
+    `Kf[i] = linSolve (F_i + Σ_{j<i} (c_{ij}/h) Kf[j])`, `F_i = stageForcing … i` -/
+theorem stagesGo_equations (Y J Lo Up : Mat α) (h : α) (K0 : Array (Mat α)) (hK0 : p.stages ≤ K0.size)
+    (ynew : Mat α) (st : Stats) (i : Nat) (hi : i < p.stages) :
+    (stagesGo s p kc Y J Lo Up h p.stages 0 K0 ynew st).1.getD i #[] =
+      s.linSolve J Lo Up
+        (stageRhsOf p h (stagesGo s p kc Y J Lo Up h p.stages 0 K0 ynew st).1
+          (stageForcing s p kc Y K0 (stagesGo s p kc Y J Lo Up h p.stages 0 K0 ynew st).1 i) i) :=
+  stagesGo_spec s p kc Y J Lo Up h K0 hK0 p.stages 0 K0 ynew st (by omega) rfl (fun _ _ => rfl)
+    (fun _ => by simp [StageEntry]) i (Nat.zero_le _) hi
+
+/-! entry-wise reading of the `Axpy` folds -/
+
+theorem axpyRow_size (a : α) (x y : Array α) : (axpyRow a x y).size = y.size := by
+  simp [axpyRow]
+
+theorem rd_axpyRow (a : α) (x y : Array α) (v : Nat) (hv : v < y.size) :
+    rd (axpyRow a x y) v = rd y v + a * rd x v := by
+  simp [axpyRow, rd, Array.getD, hv]
+
+theorem axpyM_size (a : α) (x y : Mat α) : (axpyM a x y).size = y.size := by
+  simp [axpyM]
+
+theorem axpyM_getD (a : α) (x y : Mat α) (c : Nat) (hc : c < y.size) :
+    (axpyM a x y).getD c #[] = axpyRow a (x.getD c #[]) (y.getD c #[]) := by
+  simp [axpyM, Array.getD, hc]
+
+/-- `(F + Σ_{j∈l} coef_j · X_j)[c][v]`, summed left to right exactly as the code does (any carrier) -/
+theorem rd_axpy_fold (coef : Nat → α) (X : Nat → Mat α) (l : List Nat) (F : Mat α) (c v : Nat)
+    (hc : c < F.size) (hv : v < (F.getD c #[]).size) :
+    rd ((l.foldl (fun ks j => axpyM (coef j) (X j) ks) F).getD c #[]) v =
+      l.foldl (fun acc j => acc + coef j * rd ((X j).getD c #[]) v) (rd (F.getD c #[]) v) := by
+  induction l generalizing F with
+  | nil => rfl
+  | cons j l ih =>
+    simp only [List.foldl_cons]
+    have h1 : (axpyM (coef j) (X j) F).getD c #[] = axpyRow (coef j) ((X j).getD c #[]) (F.getD c #[]) :=
+      axpyM_getD _ _ _ _ hc
+    rw [ih (axpyM (coef j) (X j) F) (by rw [axpyM_size]; exact hc) (by rw [h1, axpyRow_size]; exact hv),
+      h1, rd_axpyRow _ _ _ _ hv]
+
+end Stages
+
+section StagesAttempt
+variable {α : Type} [OfNat α 0] [OfNat α 1] [Add α] [Sub α] [Mul α] [Div α]
+variable (o : Ops α) (cs : Consts α) (s : SolverCfg α) (p : RosParams α) (kc : Mat α)
+    (atol : Array α) (rtol : α) (timeStep hm : α)
+
+theorem rosAttempt_k (r : RState α) :
+    (rosAttempt o cs s p kc atol rtol hm r).sc.k = (attStages s p kc r).1 := by
+  unfold rosAttempt; simp only []
+  split <;> try rfl
+  split <;> rfl
+
+theorem rosAttempt_yerr (r : RState α) :
+    (rosAttempt o cs s p kc atol rtol hm r).sc.yerr = attYerr s p kc r := by
+  unfold rosAttempt; simp only []
+  split <;> try rfl
+  split <;> rfl
+
+theorem rosAttempt_f0 (r : RState α) :
+    (rosAttempt o cs s p kc atol rtol hm r).sc.f0 = r.sc.f0 := by
+  unfold rosAttempt; simp only []
+  split <;> try rfl
+  split <;> rfl
+
+/-- the prologue touches only `f0` and `jac` of the scratch -/
+theorem rosPrologue_frame_sc (r : RState α) :
+    (rosPrologue o cs s p kc timeStep r).sc.k = r.sc.k ∧
+    (rosPrologue o cs s p kc timeStep r).sc.lower = r.sc.lower ∧
+    (rosPrologue o cs s p kc timeStep r).sc.upper = r.sc.upper ∧
+    (rosPrologue o cs s p kc timeStep r).sc.ynew = r.sc.ynew ∧
+    (rosPrologue o cs s p kc timeStep r).sc.yerr = r.sc.yerr := by
+  have h := rosPrologue_cases o cs s p kc timeStep r
+  generalize rosPrologue o cs s p kc timeStep r = r' at h ⊢
+  cases h <;> simp [startStep]
+
+/-- the stage equations for the stage vectors left in the scratch by one attempt -/
+theorem rosAttempt_stage_equations (r : RState α) (hk : p.stages ≤ r.sc.k.size) (i : Nat)
+    (hi : i < p.stages) :
+    (rosAttempt o cs s p kc atol rtol hm r).sc.k.getD i #[] =
+      s.linSolve (attFactor s p r).1 (attFactor s p r).2.1 (attFactor s p r).2.2
+        (stageRhsOf p r.ctl.h (rosAttempt o cs s p kc atol rtol hm r).sc.k
+          (stageForcing s p kc r.Y (r.sc.k.setIfInBounds 0 r.sc.f0)
+            (rosAttempt o cs s p kc atol rtol hm r).sc.k i) i) := by
+  rw [rosAttempt_k]
+  unfold attStages
+  exact stagesGo_equations s p kc r.Y _ _ _ r.ctl.h _ (by simpa using hk) _ _ i hi
+
+/-- while inside a step, `initial_forcing` is the forcing at the current `Y` -/
+def F0Inv (r : RState α) : Prop :=
+  r.status = .running → r.inStep = true → ∃ B, r.sc.f0 = s.forcing kc r.Y (fillM B 0)
+
+theorem F0Inv_prologue (r : RState α) (h : F0Inv s kc r) :
+    F0Inv s kc (rosPrologue o cs s p kc timeStep r) := by
+  have hc := rosPrologue_cases o cs s p kc timeStep r
+  generalize rosPrologue o cs s p kc timeStep r = r' at hc ⊢
+  cases hc with
+  | inStep _ => exact h
+  | converged => intro h1; cases h1
+  | maxSteps => intro h1; cases h1
+  | tooSmall => intro h1; cases h1
+  | start => intro _ _; exact ⟨r.sc.f0, rfl⟩
+
+theorem F0Inv_attempt (r : RState α) (hr : r.status = .running) (h : F0Inv s kc r) :
+    F0Inv s kc (rosAttempt o cs s p kc atol rtol hm r) := by
+  intro h1 h2
+  rw [rosAttempt_inStep] at h2
+  rcases rosAttempt_status_cases o cs s p kc atol rtol hm r hr with ⟨_, hd | hd⟩ | ⟨h3, _⟩ | ⟨h3, _⟩
+  · simp [hd] at h2
+  · simp only [hd, reduceCtorEq, if_false] at h2
+    obtain ⟨B, hB⟩ := h hr h2
+    exact ⟨B, by rw [rosAttempt_f0, rosAttempt_Y, if_pos hd, hB]⟩
+  · rw [h3] at h1; cases h1
+  · rw [h3] at h1; cases h1
+
+theorem F0Inv_step (r : RState α) (h : F0Inv s kc r) :
+    F0Inv s kc (rosStep o cs s p kc atol rtol timeStep hm r) :=
+  rosStep_inv o cs s p kc atol rtol timeStep hm (F0Inv s kc) r (F0Inv_prologue o cs s p kc timeStep r)
+    (fun r' h1 _ => F0Inv_attempt o cs s p kc atol rtol hm r' h1) h
+
+end StagesAttempt
+
 /-! ### C06: more loop-level facts -/
 
 section More
@@ -954,4 +1300,35 @@ theorem C05Inv_init (h : K) (Y : Mat K) (sc : Scratch K) : C05Inv s p kc (rosIni
   ⟨fun _ h2 => (by cases h2), fun _ h => (by cases h)⟩
 
 end C05
+/-! ### a concrete instance over `ℚ` used by the `example`s of C05/C06/C07 -/
+
+namespace Ex
+
+/-- one species `A`, one reaction `A → ∅` -/
+def tables : PSTables ℚ :=
+  { nReact := [1], reactIds := [0], nProd := [0], jInfo := [⟨0, 0, 0, 0⟩] }
+
+def cfg (kind : LUKind) : SolverCfg ℚ :=
+  { nSpecies := 1, L := 0, tables := tables, flatIds := [0],
+    la := LinAlg.build kind (Pattern.mk' 1 false 0 [(0, 0)]), diag := [0] }
+
+def scratch : Scratch ℚ :=
+  { jac := #[#[0]], lower := #[#[0]], upper := #[#[0]], ynew := #[#[0]], f0 := #[#[0]],
+    k := #[#[#[0]]], yerr := #[#[0]] }
+
+/-- a one-stage (linearly implicit Euler) table with `γ = 1/2` and round controller numbers -/
+def params : RosParams ℚ :=
+  { stages := 1, a := #[], c := #[], m := #[1], e := #[1], gamma0 := 1/2, newF := #[true], order := 1,
+    roundOff := 1/1000000000000000, fmin := 1/5, fmax := 6, rejDec := 1/10, safety := 9/10,
+    hmin := 0, hmax := 0, hstart := 1000, maxSteps := 1000 }
+
+def consts : Consts ℚ := { deltaMin := 1/1000000, errorMin := 1/10000000000, tenth := 1/10, ten := 10 }
+
+/-- `y' = -y`, `y(0) = 1`, `atol = rtol = 1/10`, time step `T`, first `H = min 1000 T`:
+    for `T = 1000` the attempts use `H = 1000, 200, 40, 4, 2/5` (four rejections, then an acceptance) -/
+def run (kind : LUKind) (T : ℚ) (fuel : Nat) : SolveResult ℚ :=
+  rosSolve ratOps consts (cfg kind) params #[#[1]] #[1/10] (1/10) T #[#[1]] scratch fuel
+
+end Ex
+
 end Micm
